@@ -230,6 +230,8 @@ SWEEP_DOC = ("for every target `prqlc list-targets` prints: SQL under the explic
              "other header; neither = sql.generic; an unknown header without option is an error (validates by execution the assumed contract of Target::from_str)")
 
 _PROG = "from t\nselect {`a b`, c, d = c + 1}\nfilter c > 1\nsort c\ntake 2..5\n"
+_EXTRA = ['from s"SELECT [a x], b FROM t"\nderive c = 1\n', 'from s"SELECT \\"a\\", b FROM t"\nderive c = 1\n', 'from s"SELECT `a`, b FROM t"\nfilter b > 1\n',
+          "from [{n = 1}]\nloop (filter n < 4 | select n = n + 1)\nsort n\n"]
 
 
 def sweep():
@@ -256,6 +258,16 @@ def sweep():
             if not (ok3 and both == by_opt):
                 rec("DS1a", "option %s, header %s" % (d, e), True, by_opt, both)
         rec("DS1a", "option %s against every other header" % d, False, "", "")
+    # programs whose SQL depends on dialect-specific paths of the lowering / the generator: s-strings written with a dialect's quoting, a loop (WITH RECURSIVE)
+    for prog in _EXTRA:
+        for d in names:
+            r1 = replaylib.compile_prql(prog, d)
+            r2 = replaylib.compile_prql("prql target:%s\n%s" % (d, prog), None)
+            rec("DS1c", "header %s vs option %s: %s" % (d, d, prog.split("\n")[0][:60]), r1 != r2 or r1[1].startswith("PANIC"), r1[1], r2[1])
+        for d, e in (("sql.postgres", "sql.mssql"), ("sql.sqlite", "sql.mysql"), ("sql.mssql", "sql.generic"), ("sql.generic", "sql.mssql")):
+            r1 = replaylib.compile_prql(prog, d)
+            r3 = replaylib.compile_prql("prql target:%s\n%s" % (e, prog), d)
+            rec("DS1a", "option %s, header %s: %s" % (d, e, prog.split("\n")[0][:60]), r1 != r3, r1[1], r3[1])
     # multi-file project: the header that counts is the one of the file that declares the pipeline
     import tempfile, shutil, os
     w = tempfile.mkdtemp(prefix="verif_proj_")
